@@ -160,6 +160,12 @@ func judgeC08(sc Scenario, ex *ExecResult, initial map[string]string) (clause, d
 			return "", "" // C09's verdict
 		}
 	}
+	if ex.RaceN > 0 {
+		// (race build) two calls touched the same memory without synchronisation: whatever values this particular
+		// execution returned, the calls did not take effect atomically
+		rep := raceReport(raceCount() - ex.RaceN)
+		return "unsynchronised-access", "the race detector reported conflicting accesses between the calls of this schedule:\n" + truncate(rep, 2500)
+	}
 	for _, c := range ex.Calls {
 		if c.Err != "nil" && (c.Call.K == "put" || c.Call.K == "del" || c.Call.K == "get" || c.Call.K == "batch") {
 			return "call-failed", fmt.Sprintf("thread %d: %s returned %s; no sequential execution of these calls makes a valid %s fail, so the history has no linearization", c.Thread, c.Call, c.Err, c.Call.K)
@@ -423,7 +429,8 @@ func schedLinRun(prop string, sc Scenario, pb int, res *TaskResult) {
 		if c != "" {
 			// the same schedule must fail again
 			ex2 := runScenario(sc, ex.Sched.Choices, true)
-			if c2, _ := judgeC08(sc, ex2, initial); c2 != c {
+			// (the race detector reports each pair of code locations once per process: not re-observable)
+			if c2, _ := judgeC08(sc, ex2, initial); c2 != c && c != "unsynchronised-access" {
 				res.Err = fmt.Sprintf("non-reproducible %s in %s schedule %v", c, sc, ex.Sched.Choices)
 				return false
 			}
